@@ -1199,6 +1199,7 @@ def main():
     import mask2lean   # mask.rs: apply_mask, the fallback and the word-wise fast path
     import readin2lean  # FrameCodec::read_in: resize / read / truncate of the input buffer
     import verify2lean  # VerifyData::verify_response: the client's decision on the response
+    import parts2lean   # create_parts: the server's decision on the request and the head of its answer
     gens = GENERATORS + [('Ctx.lean', ctx2lean.gen_ctx), ('CodecGen.lean', codec2lean.gen_codec),
                          ('HsGen.lean', hs2lean.gen_hs), ('CollGen.lean', coll2lean.gen_coll),
                          ('FrameGen.lean', frame2lean.gen_frame),
@@ -1208,7 +1209,8 @@ def main():
                          ('HdrGen.lean', hdr2lean.gen_hdr),
                          ('MaskGen.lean', mask2lean.gen_mask),
                          ('ReadInGen.lean', readin2lean.gen_readin),
-                         ('VerifyGen.lean', verify2lean.gen_verify)]
+                         ('VerifyGen.lean', verify2lean.gen_verify),
+                         ('PartsGen.lean', parts2lean.gen_parts)]
     for name, fn in gens:
         try:
             text = fn(repo)
